@@ -21,7 +21,7 @@ mod sched_s;
 use sched_s::Shared;
 use sched_s::Status;
 
-const WATCHDOG: Duration = Duration::from_secs(30);
+const WATCHDOG: Duration = Duration::from_secs(600);
 
 type Ents = Vec<(u8, Vec<u8>)>;
 
